@@ -24,8 +24,32 @@ def rand_dag_pairs(rng, nodes, max_pairs):
     return []
   order = nodes[:]
   rng.shuffle(order)
-  shape = rng.choice(["chain", "random", "random", "diamond", "star", "dup"])
+  shape = rng.choice(["chain", "random", "random", "diamond", "star", "dup", "dense", "dense", "shortcut", "shortcut"])
   pairs = []
+  if shape == "shortcut" and len(order) < 4:
+    shape = "dense"
+  if shape == "dense":
+    # every forward pair with probability ~0.6, listed in random order (transitive shortcuts included)
+    prob = rng.choice([0.4, 0.6, 0.8])
+    pairs = [(order[i], order[j]) for i in range(len(order)) for j in range(i + 1, len(order)) if rng.random() < prob]
+    if not pairs:
+      pairs = [(order[0], order[1])]
+    rng.shuffle(pairs)
+    return pairs
+  if shape == "shortcut":
+    # a long path u -> c1 -> ... -> b plus redundant shortcut edges, the shortcuts listed FIRST
+    k = rng.randint(4, len(order))
+    path = [(order[i], order[i + 1]) for i in range(k - 1)]
+    shortcuts = [(order[0], order[k - 1])]
+    for _ in range(rng.randint(0, 2)):
+      i = rng.randint(0, k - 3)
+      j = rng.randint(i + 2, k - 1)
+      if (order[i], order[j]) not in shortcuts:
+        shortcuts.append((order[i], order[j]))
+    extra = [(order[i], order[1 + rng.randint(0, k - 2)]) for i in range(k, len(order))]
+    if rng.random() < 0.5:
+      rng.shuffle(path)
+    return shortcuts + path + extra
   if shape == "chain":
     k = rng.randint(2, len(order))
     pairs = [(order[i], order[i + 1]) for i in range(k - 1)]
